@@ -85,7 +85,7 @@ def zero_ctx_switches(body):
 def registry_calls(body):
     """HashSet method calls whose receiver goes through the `contexts` field."""
     out = []
-    for c in q.live_calls(body, prefix="std::collections::hash::set::HashSet::<T, S, A>::"):
+    for c in q.live_calls(body, prefix=C.SET_PREFIXES):
         recv = c.arg(0)
         if q.has_field(recv, "contexts"):
             out.append(c)
@@ -103,7 +103,7 @@ def r1_for(run, b, AP):
     member = []
     for bb, si in b.switches():
         cond = si["cond"]
-        if si["kind"] == "bool" and cond[0] == "call" and cond[1].fn == C.HASHSET_CONTAINS and q.has_field(cond[2][0], "contexts") \
+        if si["kind"] == "bool" and cond[0] == "call" and cond[1].fn in C.SET_CONTAINS and q.has_field(cond[2][0], "contexts") \
                 and q.has_field(cond[2][1], "context_id"):
             member += q.edge_triples(b, bb, lambda m: m is True)
     run.ob("%s|membership-test" % AP, bool(member), b.sp, "append tests contexts.contains(&frame.context_id)", reason="mechanism-not-found")
@@ -134,7 +134,7 @@ def r1_for(run, b, AP):
     non_member = []
     for bb, si in b.switches():
         cond = si["cond"]
-        if si["kind"] == "bool" and cond[0] == "call" and cond[1].fn == C.HASHSET_CONTAINS and q.has_field(cond[2][0], "contexts"):
+        if si["kind"] == "bool" and cond[0] == "call" and cond[1].fn in C.SET_CONTAINS and q.has_field(cond[2][0], "contexts"):
             non_member += q.edge_triples(b, bb, lambda m: m is False)
     reach = b.reachable_blocks([t for (_, t, _) in non_member], removed_blocks=cut) if non_member else set()
     leak = [n for (n, bb, sp) in effects if bb in reach]
@@ -170,7 +170,7 @@ def r2_for(run, b, AP):
     for (bb, z, nz) in zs:
         reach = b.reachable_blocks([t for (_, t, _) in nz], removed_blocks=cut)
         eff = [c for c in b.calls() if c.bb in reach and (c.fn in (C.INSERT_FRAME, C.BROADCAST_SEND, C.UNBOUNDED_SEND) or
-                                                          (c.fn.startswith("std::collections::hash::set::HashSet") and c.fn.split("::")[-1] in MUTATORS))]
+                                                          (c.fn.startswith(C.SET_PREFIXES) and c.fn.split("::")[-1] in MUTATORS))]
         oks = [bb2 for (bb2, e, raw) in b.return_defs() if bb2 in reach and strip(e)[0] == "agg" and strip(e)[1].get("variant") == "Ok"]
         run.ob("%s|registration|non-zero-rejected" % AP, not eff and not oks, b.blocks[bb]["term"]["sp"],
                "an xs.context frame outside the zero context is rejected without any effect", reason="context-frame-outside-zero")
@@ -192,7 +192,7 @@ def r2_for(run, b, AP):
         reach = b.reachable_blocks(t_targets, removed_blocks=[w[0] for w in good] + cut)
         run.ob("%s|registration|ttl-forced-before-store" % AP, c.bb not in reach, c.sp,
                "every path from the registration branch to insert_frame passes the ttl overwrite", reason="context-ttl-not-forced")
-    ins = [c for c in registry_calls(b) if c.fn == C.HASHSET_INSERT and c.bb in in_branch]
+    ins = [c for c in registry_calls(b) if c.fn in C.SET_INSERT and c.bb in in_branch]
     zero_edges = [e for (bb, z, nz) in zs for e in z]
     b.defs()
     topic_written = any(place_path(b.place_expr(lhs)) and place_path(b.place_expr(lhs))[-1] == "topic" for (bi, si, lhs, rv, sp) in b.field_writes)
@@ -209,7 +209,7 @@ def r2_for(run, b, AP):
 
 def r3(run):
     b = C.body_or_fail(run, C.NEW)
-    ins = [c for c in registry_calls(b) if c.fn == C.HASHSET_INSERT]
+    ins = [c for c in registry_calls(b) if c.fn in C.SET_INSERT]
     if not ins:
         run.missing("%s|reload" % C.NEW, "Store::new does not feed the context registry from stored frames (reload loop missing)", b.sp)
         return
@@ -239,7 +239,7 @@ def r3(run):
         run.ob("%s|reload|before-return" % C.NEW, bool(rs) and q.dominated(b, r, via_blocks=[c.bb for c in rs]), b.blocks[r]["term"]["sp"],
                "the store is returned only after the reload scan was started", reason="reload-skipped")
     # the zero context itself is always present
-    seeds = [c for c in q.live_calls(b, C.HASHSET_INSERT) if q.is_const_named(c.arg(1), "ZERO_CONTEXT")]
+    seeds = [c for c in q.live_calls(b, *C.SET_INSERT) if q.is_const_named(c.arg(1), "ZERO_CONTEXT")]
     run.ob("%s|zero-context-seeded" % C.NEW, len(seeds) >= 1, b.sp, "the registry is seeded with ZERO_CONTEXT", reason="zero-context-missing")
 
 
@@ -286,7 +286,7 @@ def r4(run):
 def r5(run):
     facts = run.facts
     # functions that put / delete the primary record
-    for info_fn, op, method in ((C.BATCH_INSERT, "insert", C.HASHSET_INSERT), (C.BATCH_REMOVE, "remove", C.HASHSET_REMOVE)):
+    for info_fn, op, method in ((C.BATCH_INSERT, "insert", C.SET_INSERT), (C.BATCH_REMOVE, "remove", C.SET_REMOVE)):
         holders = []
         for b in facts.all_bodies():
             for c in q.live_calls(b, info_fn):
@@ -298,7 +298,7 @@ def r5(run):
             run.touch(b)
             regs = topic_is_ctx_switches(b)
             t_edges = [e for (bb, t, f) in regs for e in t]
-            upd = [r for r in registry_calls(b) if r.fn == method]
+            upd = [r for r in registry_calls(b) if r.fn in method]
             ok = bool(upd) and bool(t_edges) and all(q.dominated(b, r.bb, via_edges=t_edges) for r in upd)
             run.ob("%s|registry-follows-%s" % (b.def_, op), ok, c.sp,
                    "%s %ss the primary record and maintains the registry under the xs.context guard (%d registry %s)" % (b.def_, op, len(upd), op),
